@@ -7,6 +7,7 @@ import CM.Ops.Emph
 import CM.Ops.Refs
 import CM.Ops.Doc
 import CM.Ops.Format
+import CM.Ops.Blocks
 namespace CM.Ops
 
 def echoOp : Op
@@ -19,6 +20,6 @@ def treeOp : Op
     | none => bad
   | _ => bad
 
-def allOps : List (String × Op) := [("echo", echoOp), ("tree", treeOp)] ++ recognizeOps ++ checkOps ++ walkOps ++ renderOps ++ emphOps ++ refsOps ++ docOps ++ formatOps
+def allOps : List (String × Op) := [("echo", echoOp), ("tree", treeOp)] ++ recognizeOps ++ checkOps ++ walkOps ++ renderOps ++ emphOps ++ refsOps ++ docOps ++ formatOps ++ blocksOps
 
 end CM.Ops
